@@ -41,10 +41,11 @@ const (
 	opCRS
 	opNewSettings
 	opVerifyMalformed
+	opProofIO
 	numOpKinds
 )
 
-var opNames = []string{"Commit", "CreateMultiProof", "CheckMultiProof", "Create+CheckIPAProof", "MultiScalar/MultiExp", "element-ops", "batch-helpers", "transcript", "fr-bigint-pool", "point-codec", "fp-sqrt", "parallel.Execute", "GenerateRandomPoints", "NewIPASettings", "CheckMultiProof(malformed)"}
+var opNames = []string{"Commit", "CreateMultiProof", "CheckMultiProof", "Create+CheckIPAProof", "MultiScalar/MultiExp", "element-ops", "batch-helpers", "transcript", "fr-bigint-pool", "point-codec", "fp-sqrt", "parallel.Execute", "GenerateRandomPoints", "NewIPASettings", "CheckMultiProof(malformed)", "proof-read-write-reuse"}
 
 type opCtx struct {
 	env    *Env
@@ -85,6 +86,59 @@ func frEq(a, b []fr.Element) bool {
 		}
 	}
 	return true
+}
+
+// spare* return a copy of src placed at the start of a larger backing array whose tail (beyond len, within cap) holds
+// sentinels; check reports whether that tail is untouched. A callee that appends to a caller's slice writes there.
+func spareElems(src []banderwagon.Element) ([]banderwagon.Element, func() bool) {
+	const extra = 12
+	arena := make([]banderwagon.Element, len(src)+extra)
+	copy(arena, src)
+	for i := len(src); i < len(arena); i++ {
+		arena[i] = banderwagon.Generator
+	}
+	return arena[:len(src)], func() bool {
+		for i := len(src); i < len(arena); i++ {
+			if arena[i] != banderwagon.Generator {
+				return false
+			}
+		}
+		return true
+	}
+}
+
+func spareFr(src []fr.Element) ([]fr.Element, func() bool) {
+	const extra = 12
+	arena := make([]fr.Element, len(src)+extra)
+	copy(arena, src)
+	for i := len(src); i < len(arena); i++ {
+		arena[i] = fr.Element{0x5e, 0x5e, 0x5e, 0x5e}
+	}
+	return arena[:len(src)], func() bool {
+		for i := len(src); i < len(arena); i++ {
+			if arena[i] != (fr.Element{0x5e, 0x5e, 0x5e, 0x5e}) {
+				return false
+			}
+		}
+		return true
+	}
+}
+
+func spareBytes(src []byte) ([]byte, func() bool) {
+	const extra = 40
+	arena := make([]byte, len(src)+extra)
+	copy(arena, src)
+	for i := len(src); i < len(arena); i++ {
+		arena[i] = 0xA7
+	}
+	return arena[:len(src)], func() bool {
+		for i := len(src); i < len(arena); i++ {
+			if arena[i] != 0xA7 {
+				return false
+			}
+		}
+		return true
+	}
 }
 
 type digester struct{ h bytes.Buffer }
@@ -139,17 +193,33 @@ func (o *opCtx) exec(kind, k int) string {
 				v[i] = FrFromBig(randScalar(rng))
 			}
 		}
+		v, vSpare := spareFr(v)
 		snap := append([]fr.Element(nil), v...)
 		c := env.Conf.Commit(v)
 		d.elem(&c)
 		c2 := env.Conf.PrecompMSM.MSM(v)
 		d.elem(&c2)
-		if !frEq(v, snap) {
-			o.modified("input-modified/Commit", "Commit changed the caller's scalar vector")
+		if !frEq(v, snap) || !vSpare() {
+			o.modified("input-modified/Commit", "Commit changed the caller's scalar vector (or wrote into its spare capacity)")
 		}
 	case opProve:
 		n := []int{1, 2, 5, 17, 18, 35, 64}[rng.Intn(7)]
 		label, Cs, fs, zs, _ := o.buildStatement(rng, n)
+		var spareChecks []func() bool
+		seen := map[*fr.Element][]fr.Element{}
+		for i := range fs {
+			if v, ok := seen[&fs[i][0]]; ok {
+				fs[i] = v
+				continue
+			}
+			key := &fs[i][0]
+			v, chk := spareFr(fs[i])
+			seen[key] = v
+			fs[i] = v
+			spareChecks = append(spareChecks, chk)
+		}
+		zs, zChk := spareBytes(zs)
+		spareChecks = append(spareChecks, zChk)
 		snapF := make([][]fr.Element, len(fs))
 		for i := range fs {
 			snapF[i] = append([]fr.Element(nil), fs[i]...)
@@ -180,6 +250,12 @@ func (o *opCtx) exec(kind, k int) string {
 		if !bytes.Equal(zs, snapZ) {
 			o.modified("input-modified/CreateMultiProof/zs", "CreateMultiProof changed the evaluation indices")
 		}
+		for _, chk := range spareChecks {
+			if !chk() {
+				o.modified("input-modified/CreateMultiProof/spare-capacity", "CreateMultiProof wrote into the spare capacity of a caller's slice")
+				break
+			}
+		}
 		for i := range Cs {
 			g, ok := ElemToRef(Cs[i])
 			if !ok || !ref.ClassEqual(g, before[i]) {
@@ -209,11 +285,19 @@ func (o *opCtx) exec(kind, k int) string {
 			snapY[i] = *ys[i]
 		}
 		snapZ := append([]uint8(nil), zs...)
+		var lChk, rChk func() bool
+		pr.IPA.L, lChk = spareElems(pr.IPA.L)
+		pr.IPA.R, rChk = spareElems(pr.IPA.R)
+		zs, zChk := spareBytes(zs)
+		snapZ = append([]uint8(nil), zs...)
 		snapL := append([]banderwagon.Element(nil), pr.IPA.L...)
 		snapR := append([]banderwagon.Element(nil), pr.IPA.R...)
 		snapD, snapA := pr.D, pr.IPA.A_scalar
 		tr := common.NewTranscript(label)
 		ok, err := multiproof.CheckMultiProof(tr, env.Conf, pr, Cs, ys, zs)
+		if !lChk() || !rChk() || !zChk() {
+			o.modified("input-modified/CheckMultiProof/spare-capacity", "CheckMultiProof wrote into the spare capacity of the proof's L/R slices or of zs (append on a caller's slice)")
+		}
 		d.addf("ok=%v err=%v", ok, err != nil)
 		ch := tr.ChallengeScalar([]byte("state"))
 		cb := ch.Bytes()
@@ -241,7 +325,7 @@ func (o *opCtx) exec(kind, k int) string {
 			}
 		}
 	case opIPA:
-		a := o.privPoly(rng.Intn(len(o.polysV)))
+		a, aChk := spareFr(o.privPoly(rng.Intn(len(o.polysV))))
 		snap := append([]fr.Element(nil), a...)
 		comm := env.Conf.Commit(a)
 		var z *big.Int
@@ -260,8 +344,8 @@ func (o *opCtx) exec(kind, k int) string {
 		var buf bytes.Buffer
 		pr.Write(&buf)
 		d.add(buf.Bytes())
-		if !frEq(a, snap) {
-			o.modified("input-modified/CreateIPAProof", "CreateIPAProof changed the polynomial")
+		if !frEq(a, snap) || !aChk() {
+			o.modified("input-modified/CreateIPAProof", "CreateIPAProof changed the polynomial (or wrote into its spare capacity)")
 		}
 		// result through the public barycentric route
 		var y fr.Element
@@ -271,10 +355,16 @@ func (o *opCtx) exec(kind, k int) string {
 			b := env.Conf.PrecomputedWeights.ComputeBarycentricCoefficients(zf)
 			y, _ = ipa.InnerProd(a, b)
 		}
+		var lChk, rChk func() bool
+		pr.L, lChk = spareElems(pr.L)
+		pr.R, rChk = spareElems(pr.R)
 		snapL := append([]banderwagon.Element(nil), pr.L...)
 		snapR := append([]banderwagon.Element(nil), pr.R...)
 		ok, err := ipa.CheckIPAProof(common.NewTranscript("ipa"), env.Conf, comm, pr, zf, y)
 		d.addf("ok=%v err=%v", ok, err != nil)
+		if !lChk() || !rChk() {
+			o.modified("input-modified/CheckIPAProof/spare-capacity", "CheckIPAProof wrote into the spare capacity of the proof's L/R slices (append on a caller's slice)")
+		}
 		for j := range snapL {
 			if pr.L[j] != snapL[j] || pr.R[j] != snapR[j] {
 				o.modified("input-modified/CheckIPAProof/proof", "CheckIPAProof changed the proof's L/R arrays")
@@ -292,6 +382,8 @@ func (o *opCtx) exec(kind, k int) string {
 				sc[i] = FrFromBig(big.NewInt(int64(rng.Intn(200))))
 			}
 		}
+		pts, pChk := spareElems(pts)
+		sc, sChk := spareFr(sc)
 		snapP := append([]banderwagon.Element(nil), pts...)
 		snapS := append([]fr.Element(nil), sc...)
 		r1, err := ipa.MultiScalar(pts, sc)
@@ -308,8 +400,8 @@ func (o *opCtx) exec(kind, k int) string {
 				break
 			}
 		}
-		if !frEq(sc, snapS) {
-			o.modified("input-modified/MultiExp/scalars", "MultiExp changed the caller's scalars")
+		if !frEq(sc, snapS) || !pChk() || !sChk() {
+			o.modified("input-modified/MultiExp/scalars", "MultiExp changed the caller's scalars (or wrote into the spare capacity of points/scalars)")
 		}
 	case opElement:
 		p := ElemFromRef(o.base.P[rng.Intn(len(o.base.P))], randNonZeroP(rng), rng.Intn(2) == 0)
@@ -541,6 +633,54 @@ func (o *opCtx) exec(kind, k int) string {
 		d.addf("%v %v", e.SetBytes([]byte{1, 2, 3}) != nil, e.SetBytesUncompressed(make([]byte, 63), false) != nil)
 		_, err = ipa.MultiScalar(make([]banderwagon.Element, 3), make([]fr.Element, 2))
 		d.addf("%v", err != nil)
+	case opProofIO:
+		// serialisation with re-used proof objects: reading into an object must not disturb a copy made earlier
+		mk := func() []byte {
+			var out []byte
+			for i := 0; i < 17; i++ {
+				e := ref.Serialize(o.base.P[rng.Intn(len(o.base.P))])
+				out = append(out, e[:]...)
+			}
+			sc := ref.LE32(randBig(rng, ref.R))
+			return append(out, sc[:]...)
+		}
+		b1, b2 := mk(), mk()
+		in1, chk1 := spareBytes(b1)
+		var scratch multiproof.MultiProof
+		d.addf("err=%v", scratch.Read(bytes.NewReader(in1)) != nil)
+		kept := scratch // value copy made by the caller
+		var w0 bytes.Buffer
+		kept.Write(&w0)
+		d.addf("err=%v", scratch.Read(bytes.NewReader(b2)) != nil)
+		var w1, w2 bytes.Buffer
+		kept.Write(&w1)
+		scratch.Write(&w2)
+		d.add(w1.Bytes())
+		d.add(w2.Bytes())
+		if !bytes.Equal(w0.Bytes(), w1.Bytes()) || !bytes.Equal(w1.Bytes(), b1) {
+			o.modified("input-modified/MultiProof.Read/earlier-copy", "reading a second proof into a proof object changed a copy of the object made before the call")
+		}
+		if !chk1() || !bytes.Equal(in1, b1) {
+			o.modified("input-modified/MultiProof.Read/bytes", "MultiProof.Read changed the caller's byte slice")
+		}
+		// a failing Read into a used object, then a good one
+		bad := append([]byte(nil), b1[:300]...)
+		d.addf("err=%v", scratch.Read(bytes.NewReader(bad)) != nil)
+		var w3 bytes.Buffer
+		kept.Write(&w3)
+		if !bytes.Equal(w3.Bytes(), b1) {
+			o.modified("input-modified/MultiProof.Read/earlier-copy", "a failing Read changed a copy of the proof object made before the call")
+		}
+		var ip ipa.IPAProof
+		d.addf("err=%v", ip.Read(bytes.NewReader(b1[32:])) != nil)
+		ipKept := ip
+		d.addf("err=%v", ip.Read(bytes.NewReader(b2[32:])) != nil)
+		var w4 bytes.Buffer
+		ipKept.Write(&w4)
+		if !bytes.Equal(w4.Bytes(), b1[32:]) {
+			o.modified("input-modified/IPAProof.Read/earlier-copy", "reading a second proof into an IPAProof changed a copy made before the call")
+		}
+		d.add(w4.Bytes())
 	case opNewSettings:
 		conf, err := ipa.NewIPASettings()
 		d.addf("err=%v", err != nil)
